@@ -1,4 +1,4 @@
 SPECIFICATION Spec
-CONSTANTS MaxTypes = 3  Emit = TRUE
+CONSTANTS MaxTypes = 4  Emit = TRUE
 INVARIANTS ExactDecodes TrailingIgnored ShortRefused BadUtf8Refused FixedPointOutside Emitter
 CHECK_DEADLOCK FALSE
